@@ -322,6 +322,9 @@ type iavlIterator struct {
 	// Close this to signal that state is initialized.
 	initCh chan struct{}
 
+	// Closed by the iteration goroutine when it has stopped touching the tree.
+	doneCh chan struct{}
+
 	//----------------------------------------
 	// What follows are mutable state.
 	mtx sync.Mutex
@@ -345,6 +348,7 @@ func newIAVLIterator(tree *iavl.ImmutableTree, start, end []byte, ascending bool
 		iterCh:    make(chan cmn.KVPair), // Set capacity > 0?
 		quitCh:    make(chan struct{}),
 		initCh:    make(chan struct{}),
+		doneCh:    make(chan struct{}),
 	}
 	go iter.iterateRoutine()
 	go iter.initRoutine()
@@ -365,6 +369,7 @@ func (iter *iavlIterator) iterateRoutine() {
 		},
 	)
 	close(iter.iterCh) // done.
+	close(iter.doneCh)
 }
 
 // Run this to fetch the first item.
@@ -423,6 +428,9 @@ func (iter *iavlIterator) Value() []byte {
 // Implements types.Iterator.
 func (iter *iavlIterator) Close() {
 	close(iter.quitCh)
+	// wait until the iteration goroutine has left the tree: it reads nodes that a later
+	// write or Commit mutates, so it must not outlive the iterator
+	<-iter.doneCh
 }
 
 //----------------------------------------
